@@ -1364,7 +1364,7 @@ lshpack_dec_dec_int (const unsigned char **src_p, const unsigned char *src_end,
     }
     while (B & 0x80);
 
-    if (M <= 28 || (M == 35 && src[-1] <= 0xF && val - (src[-1] << 28) < val))
+    if (M <= 28 || (M == 35 && src[-1] <= 0xF && val - ((uint32_t)src[-1] << 28) < val))
     {
         *src_p = src;
         *value_p = val;
